@@ -53,6 +53,12 @@ Theorem code_helpers_refine_Kin : forall t tr,
   wf_ids t -> tree_of_topo t = Some tr -> NoDup (leaves tr) -> tree_agrees t tr.
 Proof. exact gen_helpers_refine_Kin. Qed.
 
+(** the hypotheses of the refinement are decidable: for ANY concrete topology, evaluating the boolean [refine_hyps_ok]
+    yields the agreement with Kin.v at every node (this is how the theorem is applied to the topologies of a run) *)
+Theorem code_refinement_by_computation : forall t, refine_hyps_ok t = true ->
+  exists tr, tree_of_topo t = Some tr /\ tree_agrees t tr.
+Proof. exact gen_refinement_by_computation. Qed.
+
 (** the decay chain the code walks (and hence, reversed and without the initial state, the chain of frames a momentum is
     boosted through) is the path from the state to the root of the isobar tree, for every topology, every state of the
     tree and every fuel above the length of that path *)
@@ -101,5 +107,6 @@ Print Assumptions code_decay_chain_links.
 Print Assumptions code_decay_chain_fuel_irrelevant.
 Print Assumptions code_boost_chain_is_reversed_decay_chain.
 Print Assumptions code_helpers_refine_Kin.
+Print Assumptions code_refinement_by_computation.
 Print Assumptions code_decay_chain_is_tree_path.
 Print Assumptions code_helpers_agree_with_Kin_on_current_topologies.
